@@ -327,6 +327,20 @@ fn case_pair(loc: &mut Local, x: &Ix, a: Z, b: Z) {
             Err(p) => loc.violation(&format!("C04/with_timezone/panic@{}", p.site()), json!({"a": a.j(), "panic": p.to_json()})),
         }
     }
+    // conversions through `Local` (the process zone) keep the instant as well
+    match guard(|| {
+        let l: DateTime<chrono::Local> = DateTime::<chrono::Local>::from(da);
+        let l2: DateTime<chrono::Local> = DateTime::<chrono::Local>::from(da.to_utc());
+        (l.naive_utc(), l2.naive_utc(), DateTime::<Utc>::from(l).naive_utc(), DateTime::<FixedOffset>::from(l).naive_utc(), da.with_timezone(&chrono::Local) == da)
+    }) {
+        Ok((n1, n2, n3, n4, eq)) => {
+            let un = da.naive_utc();
+            if n1 != un || n2 != un || n3 != un || n4 != un || !eq {
+                loc.violation("C04/From-conversions-through-Local/instant-changed", json!({"a": a.j()}));
+            }
+        }
+        Err(p) => loc.violation(&format!("C04/From-conversions-through-Local/panic@{}", p.site()), json!({"a": a.j(), "panic": p.to_json()})),
+    }
     if e == std::cmp::Ordering::Equal || (a.u.ns() - b.u.ns()).abs() < 2 * ri::NS {
         loc.nontrivial(h2(3, h2(h2(a.u.ns() as u64, a.off as u64), h2(b.u.ns() as u64, b.off as u64))));
     }
